@@ -126,6 +126,10 @@ func (g *SynGrammar) NonTerminals() []string {
 // grammar: productions over symbol codes. Terminal t is code t (index into verifTermNames),
 // nonterminal k is code -(k+1); the error symbol is code verifErrSym.
 func (g *SynGrammar) HarnessData(withErrorAlts bool) string {
+	return g.HarnessDataPkg("parser", withErrorAlts)
+}
+
+func (g *SynGrammar) HarnessDataPkg(pkg string, withErrorAlts bool) string {
 	terms := g.Terminals()
 	tidx := map[string]int{}
 	for i, t := range terms {
@@ -137,7 +141,7 @@ func (g *SynGrammar) HarnessData(withErrorAlts bool) string {
 		nidx[n] = i
 	}
 	var b strings.Builder
-	b.WriteString("//go:build verif\n\npackage parser\n\n")
+	b.WriteString("//go:build verif\n\npackage " + pkg + "\n\n")
 	fmt.Fprintf(&b, "// grammar %s: %s\n", g.Name, g.Why)
 	b.WriteString("var verifTermNames = []string{")
 	for _, t := range terms {
@@ -149,6 +153,9 @@ func (g *SynGrammar) HarnessData(withErrorAlts bool) string {
 		fmt.Fprintf(&b, "%q, ", n)
 	}
 	b.WriteString("}\n")
+	if pkg != "parser" {
+		return b.String()
+	}
 	b.WriteString("const verifErrSym = 1000\n")
 	b.WriteString("var verifProds = []verifProd{\n")
 	for _, p := range g.Prods {
@@ -303,5 +310,15 @@ var ConflictCorpus = []*SynGrammar{
 		Prods: []Prod{
 			P("S", NT("A"), Lit("b")), P("S", NT("B"), Lit("b")), P("S", NT("C")),
 			P("A", Lit("a")), P("B", Lit("a")), P("C", Lit("a"), Lit("b"), Lit("c")),
+		}},
+}
+
+// HostileCorpus: terminal spellings that stress the name<->number tables (C10).
+var HostileCorpus = []*SynGrammar{
+	{Name: "G18", Why: "string literals with escapes, quotes-free raw strings, non-ASCII, keyword-like and Go-keyword spellings",
+		Lex: stdLex + "id : 'a'-'z' ;\nfunc : 'f' 'n' ;\n",
+		Prods: []Prod{
+			P("S", Tok("id"), Lit("\\n")), P("S", Lit("a\\\\b"), Tok("id")), P("S", Lit("é")), P("S", Lit("\\x41")),
+			P("S", Tok("func"), Lit("INVALID?")), P("S", Lit("%d"), Lit("␚x")), P("S", Lit("type")),
 		}},
 }
